@@ -94,6 +94,12 @@ def run(ctx):
                     fail('broken_not_failed', where + '/' + cat, n, 'no failure note', 'at least one failure')
                 if not (1 <= len(desc) <= 4) or any(t is None for l in desc[1:] for t in l):
                     fail('entry_shape', where + '/' + cat, n, desc, '1-4 lists, no None among notes')
+    # the tables must still be what they were at import after real scans have run (scans edit only per-thread copies)
+    try:
+        runtime_table_integrity(cov, fail)
+    except Exception as e:
+        failures.append({'sig': {'kind': 'runtime_integrity_scenario_crashed', 'where': 'fakenet audit', 'name': type(e).__name__},
+                         'input': {}, 'observed': repr(e), 'expected': 'scenario runs'})
     # a standard audit of each policy's peer, on the real output()
     corr = 0
     try:
@@ -104,6 +110,44 @@ def run(ctx):
     return {'failures': failures, 'mismatches': [], 'coverage': cov, 'corr_cases': corr, 'exhaustive': True,
             'assumptions': ['tables are module/class-level literals read after import; code that edits them later at run time is outside C17'],
             'observations': []}
+
+
+def runtime_table_integrity(cov, fail):
+    """Runs audits that exercise every channel through which a scan edits rating state (small RSA host key, small GEX modulus,
+    OpenSSH 2048 fallback, Terrapin marks, JSON notes) and then requires MASTER_DB (both protocols) to equal its import-time value,
+    in this thread and as seen by a fresh thread."""
+    import copy
+    import threading
+    import fakenet as fn
+    from ssh_audit.ssh2_kexdb import SSH2_KexDB
+    from ssh_audit.ssh1_kexdb import SSH1_KexDB
+    snap2, snap1 = copy.deepcopy(SSH2_KexDB.MASTER_DB), copy.deepcopy(SSH1_KexDB.MASTER_DB)
+    srv = fn.simple_server(kex=('diffie-hellman-group-exchange-sha256', 'diffie-hellman-group-exchange-sha1', 'curve25519-sha256'),
+                           key=('rsa-sha2-512', 'ssh-rsa', 'ssh-ed25519'), enc=('chacha20-poly1305@openssh.com', 'aes128-cbc'),
+                           mac=('hmac-sha2-256-etm@openssh.com', 'hmac-sha1'), banner=b'SSH-2.0-OpenSSH_8.0',
+                           hostkeys={'rsa-sha2-512': fn.rsa_blob(1024), 'ssh-rsa': fn.rsa_blob(1024), 'ssh-ed25519': fn.ed25519_blob()},
+                           gex=lambda mn, pf, mx: 1024 if mx < 2048 else 2048)
+    for args in (['-n', '--skip-rate-test'], ['-n', '--skip-rate-test', '-j']):
+        fn.run_main(args + ['10.3.3.3'], fn.FakeNet({'10.3.3.3': srv}), fresh=False)
+        cov.add(('runtime-integrity', tuple(args)), True, tags=['runtime-integrity'])
+    seen = {}
+
+    def other():
+        seen['db'] = copy.deepcopy(SSH2_KexDB.get_db())
+        SSH2_KexDB.thread_exit()
+    t = threading.Thread(target=other)
+    t.start()
+    t.join()
+    for where, live, snap in (('SSH2 MASTER_DB', SSH2_KexDB.MASTER_DB, snap2), ('SSH1 MASTER_DB', SSH1_KexDB.MASTER_DB, snap1), ('get_db() in a fresh thread', seen.get('db'), snap2)):
+        if live != snap:
+            bad = [(c, n) for c in snap for n in snap[c] if live.get(c, {}).get(n) != snap[c][n]]
+            c, n = bad[0] if bad else ('?', '?')
+            fail('tables_changed_at_runtime', where, '%s/%s' % (c, n), live.get(c, {}).get(n) if isinstance(live, dict) else None, snap[c][n] if bad else 'unchanged tables')
+    fn.reset_dbs()
+    # restore the tables so that the remaining checks see the import-time values even if the property is violated
+    if SSH2_KexDB.MASTER_DB != snap2:
+        SSH2_KexDB.MASTER_DB.clear()
+        SSH2_KexDB.MASTER_DB.update(snap2)
 
 
 def audit_policy_peers(cov, fail):
